@@ -3,14 +3,15 @@ CONSTANTS
   MaxK = 8
   GenHist = FALSE
   KSet = {0}
-  NA = 3
-  NL = 3
-  NS = 3
-  NK = 2
-  Strategies = {0}
-  Adaptive = {0}
+  NA = 2
+  NL = 2
+  NS = 2
+  NK = 1
+  Strategies = {0, 1, 2, 3, 4, 5, 6}
+  WKinds = {"off", "valid", "tight", "equal", "reversed", "zero", "bothzero", "negative", "nan10", "nan90", "inf90", "neginf10"}
+  WinMode = "diag"
 INIT TInit
 NEXT TNext
-INVARIANTS ConfFilter ConfInterval ConfDraw ObsValid ObsWeights ObsLattice ObsRange
+INVARIANTS ConfFilter ConfInterval ConfDraw ObsValid ObsWeights ObsRange ObsFallback ObsLattice ObsRealDraw
 POSTCONDITION Post
 CHECK_DEADLOCK FALSE
